@@ -32,13 +32,20 @@ import (
 	"regexp"
 	"sort"
 	"strings"
+	"time"
 
 	"com.tuntun.rangers/node/src/common"
+	"com.tuntun.rangers/node/src/core"
 	crypto "com.tuntun.rangers/node/src/eth_crypto"
+	"com.tuntun.rangers/node/src/executor"
+	"com.tuntun.rangers/node/src/middleware"
 	xdb "com.tuntun.rangers/node/src/middleware/db"
+	"com.tuntun.rangers/node/src/middleware/types"
+	"com.tuntun.rangers/node/src/service"
 	"com.tuntun.rangers/node/src/storage/account"
 	"com.tuntun.rangers/node/src/storage/rlp"
 	"com.tuntun.rangers/node/src/storage/trie"
+	"com.tuntun.rangers/node/src/vm"
 	"github.com/syndtr/goleveldb/leveldb/iterator"
 	"golang.org/x/crypto/sha3"
 	"verif/harness/hx"
@@ -353,8 +360,14 @@ func (g *graph) walk(tdb *trie.NodeDatabase, h common.Hash, r role) {
 // reading a whole state: getters over the universe + full iteration
 
 type universe struct {
-	addrs []common.Address
-	keys  [][]byte
+	addrs   []common.Address
+	keys    [][]byte
+	written []slotRef // slots some earlier op wrote a value to (targets for clear / reverted-write patterns)
+}
+
+type slotRef struct {
+	a int
+	k []byte
 }
 
 func readState(database account.AccountDatabase, root common.Hash, u *universe) (m map[string]string, problem string, emptyCode string) {
@@ -584,6 +597,20 @@ func genBlock(r *hx.Rng, u *universe, codes [][]byte, big bool) []op {
 			}
 		}
 	}
+	ops = bracketize(r, ops)
+	if r.Intn(3) != 0 {
+		pat := slotPatterns(r, u)
+		at := 0
+		if len(ops) > 0 {
+			at = r.Intn(len(ops) + 1)
+		}
+		ops = append(ops[:at:at], append(pat, ops[at:]...)...)
+	}
+	for _, o := range ops {
+		if o.kind == "data" && len(o.v) > 0 && len(u.written) < 64 {
+			u.written = append(u.written, slotRef{o.a, o.k})
+		}
+	}
 	if big { // enough data for several batches (IdealBatchSize = 100 KiB)
 		na := 1 + r.Intn(3)
 		slots := 400 + r.Intn(900)
@@ -611,7 +638,142 @@ func apply(adb *account.AccountDB, u *universe, o op) {
 		adb.SetCode(a, o.v)
 	case "suicide":
 		adb.Suicide(a)
+	case "snap":
+		snapStacks[adb] = append(snapStacks[adb], adb.Snapshot())
+	case "revert", "keep":
+		st := snapStacks[adb]
+		if len(st) == 0 {
+			return
+		}
+		id := st[len(st)-1]
+		snapStacks[adb] = st[:len(st)-1]
+		if o.kind == "revert" {
+			adb.RevertToSnapshot(id) // a failed transaction / frame
+		}
 	}
+}
+
+var snapStacks = map[*account.AccountDB][]int{}
+
+// bracketize puts nested snapshot ... revert / snapshot ... keep brackets around runs of ops, the way
+// transactions and call frames do.
+func bracketize(r *hx.Rng, ops []op) []op {
+	var out []op
+	depth := 0
+	for _, o := range ops {
+		if depth < 2 && r.Intn(6) == 0 {
+			out = append(out, op{kind: "snap"})
+			depth++
+		}
+		out = append(out, o)
+		if depth > 0 && r.Intn(3) == 0 {
+			if r.Intn(4) != 0 {
+				out = append(out, op{kind: "revert"})
+			} else {
+				out = append(out, op{kind: "keep"})
+			}
+			depth--
+		}
+	}
+	for ; depth > 0; depth-- {
+		if r.Bool() {
+			out = append(out, op{kind: "revert"})
+		} else {
+			out = append(out, op{kind: "keep"})
+		}
+	}
+	return out
+}
+
+// slotPatterns: clears of slots that exist in committed storage combined with reverted writes
+func slotPatterns(r *hx.Rng, u *universe) []op {
+	if len(u.written) == 0 {
+		return nil
+	}
+	var out []op
+	for n := 1 + r.Intn(2); n > 0; n-- {
+		sl := u.written[r.Intn(len(u.written))]
+		d := func(v []byte) op { return op{kind: "data", a: sl.a, k: sl.k, v: v} }
+		switch r.Intn(4) {
+		case 0, 1: // successful clear, then a later write to the same slot that is reverted
+			out = append(out, d(nil), op{kind: "snap"}, d(genValue(r)))
+			if r.Bool() {
+				out = append(out, op{kind: "nonce", a: sl.a, n: uint64(r.Intn(4))})
+			}
+			out = append(out, op{kind: "revert"})
+		case 2: // reverted clear
+			out = append(out, op{kind: "snap"}, d(nil), op{kind: "revert"})
+		case 3: // write, then a reverted clear, then maybe a real clear
+			out = append(out, d(genValue(r)), op{kind: "snap"}, d(nil), op{kind: "revert"})
+			if r.Bool() {
+				out = append(out, d(nil))
+			}
+		}
+	}
+	return out
+}
+
+// preRead: what THIS AccountDB answers just before its Commit, for every address and key of the
+// universe (same keys as the getter part of readState). Accounts marked suicided are skipped (their
+// removal happens at the commit); the code of an account whose code hash is Keccak("") is not read
+// (that read is the zero-length-code finding and would poison the object).
+func preRead(adb *account.AccountDB, u *universe) (m map[string]string, skipAcct map[int]bool, skipCode map[int]bool) {
+	m, skipAcct, skipCode = map[string]string{}, map[int]bool{}, map[int]bool{}
+	for i, a := range u.addrs {
+		if adb.HasSuicided(a) {
+			skipAcct[i] = true
+			continue
+		}
+		p := fmt.Sprintf("get/a%d/", i)
+		m[p+"nonce"] = fmt.Sprint(adb.GetNonce(a))
+		m[p+"bal"] = adb.GetBalance(a).String()
+		if adb.GetCodeHash(a) == keccakEmpty {
+			skipCode[i] = true
+		} else {
+			m[p+"code"] = hex.EncodeToString(adb.GetCode(a))
+		}
+		for j, k := range u.keys {
+			if v := adb.GetData(a, k); len(v) > 0 {
+				m[fmt.Sprintf("%sk%d", p, j)] = hex.EncodeToString(v)
+			}
+		}
+	}
+	return
+}
+
+// compareWithPre: the values read from the committed root against what the committing AccountDB
+// answered before its Commit. Returns (kind, description) of the first difference.
+func compareWithPre(pre map[string]string, skipAcct, skipCode map[int]bool, exp map[string]string, u *universe) (string, string) {
+	for i := range u.addrs {
+		if skipAcct[i] {
+			continue
+		}
+		p := fmt.Sprintf("get/a%d/", i)
+		names := []string{"nonce", "bal"}
+		if !skipCode[i] {
+			names = append(names, "code")
+		}
+		for j := range u.keys {
+			names = append(names, fmt.Sprintf("k%d", j))
+		}
+		for _, n := range names {
+			if pre[p+n] != exp[p+n] {
+				kind := n
+				if strings.HasPrefix(n, "k") {
+					kind = "data"
+				}
+				slot := ""
+				if kind == "data" {
+					var j int
+					fmt.Sscanf(n, "k%d", &j)
+					slot = fmt.Sprintf(" slot %x", u.keys[j])
+				}
+				return kind, fmt.Sprintf("account a%d (%x)%s %s: the committing AccountDB answered %q before its Commit, the committed root reads %q",
+					i, u.addrs[i][:6], slot, n, trunc(pre[p+n]), trunc(exp[p+n]))
+			}
+		}
+	}
+	return "", ""
 }
 
 // ---------------------------------------------------------------------------------------------
@@ -796,6 +958,7 @@ func (rn *runner) history(p histParams) {
 		for _, o := range ops {
 			apply(adb, u, o)
 		}
+		pre, skipAcct, skipCode := preRead(adb, u)
 		root, err := adb.Commit(true)
 		if err != nil {
 			if isEmptyCodeErr(err) {
@@ -826,6 +989,10 @@ func (rn *runner) history(p histParams) {
 			ri = &rootInfo{root: root, exp: exp, block: b}
 			known[root] = ri
 			roots = append(roots, ri)
+		}
+		if kind, what := compareWithPre(pre, skipAcct, skipCode, ri.exp, u); kind != "" {
+			rn.res.Violate("C03/durable:value-differs-after-commit:"+kind, what,
+				input(map[string]interface{}{"block": b, "root": root.Hex(), "ops_of_this_block": opStrings(ops, 40)}))
 		}
 		if abandon {
 			rn.res.Histogram["state-commit-without-disk-commit"]++
@@ -1556,6 +1723,157 @@ func (rn *runner) leveldbFault(seed uint64, idx int, kind storeKind, closeAfter 
 	rn.res.Count(class, fmt.Sprintf("fault/%s/%d/%d", kind.path, seed, closeAfter), true)
 }
 
+// ---------------------------------------------------------------------------------------------
+// the node's own state-commit call site: blockChain.insertBlock -> saveStates, on the real chain
+// booted alone (hooks of the block store check: core.VerifBC*, stub consensus helper). Blocks with and
+// without transactions are inserted; after every block the chain reports as added, its state root is
+// opened from the state LevelDB alone (fresh account database, empty trie cache) and every account,
+// storage slot and code blob under it is read.
+
+type chainHelper struct{}
+
+func (h *chainHelper) GenerateGenesisInfo() []*types.GenesisInfo       { return nil }
+func (h *chainHelper) VRFProve2Value(p *big.Int) *big.Int              { return p }
+func (h *chainHelper) ProposalBonus() *big.Int                         { return big.NewInt(0) }
+func (h *chainHelper) PackBonus() *big.Int                             { return big.NewInt(0) }
+func (h *chainHelper) VerifyHash(b *types.Block) common.Hash           { return b.Header.Hash }
+func (h *chainHelper) CheckProveRoot(*types.BlockHeader) (bool, error) { return true, nil }
+func (h *chainHelper) VerifyNewBlock(*types.BlockHeader, *types.BlockHeader) (bool, error) {
+	return true, nil
+}
+func (h *chainHelper) VerifyBlockHeader(*types.BlockHeader) (bool, error)        { return true, nil }
+func (h *chainHelper) VerifyGroupSign([]byte, common.Hash, []byte) (bool, error) { return true, nil }
+func (h *chainHelper) CheckGroup(*types.Group) (bool, error)                     { return true, nil }
+func (h *chainHelper) VerifyMemberInfo(*types.BlockHeader, *types.BlockHeader) (bool, error) {
+	return true, nil
+}
+func (h *chainHelper) VerifyGroupForFork(*types.Group, *types.Group, *types.Group, *types.Block) (bool, error) {
+	return true, nil
+}
+
+type chainStub struct{}
+
+func (chainStub) QueryBlockHeaderByHeight(height interface{}, cache bool) *types.BlockHeader {
+	return core.VerifBCHeightHeader(height.(uint64), cache)
+}
+func (chainStub) GetAvailableGroupsByMinerId(height uint64, minerId []byte) []*types.Group {
+	return nil
+}
+func (chainStub) GetGroupById(id []byte) *types.Group             { return nil }
+func (chainStub) GetBlockHeader(height uint64) *types.BlockHeader { return nil }
+
+func (rn *runner) chainScenario(seed uint64, nblocks int) {
+	defer func() {
+		if p := recover(); p != nil {
+			rn.res.Violate("C03/chain:scenario-panicked", fmt.Sprint(p), map[string]interface{}{"chain_seed": seed})
+		}
+	}()
+	r := hx.NewRng(seed)
+	// as the block store check does: proposal 025 (per-proposer difficulty counter written by
+	// VMExecutor.after) from height 0, so that a block without transactions still moves the state
+	common.LocalChainConfig.Proposal026Block = 1 << 60
+	common.LocalChainConfig.Proposal025Block = 0
+	middleware.InitMiddleware()
+	service.InitService()
+	service.InitRefundManager(chainStub{}, chainStub{})
+	service.InitRewardCalculator(chainStub{}, chainStub{}, chainStub{})
+	vm.InitVM()
+	executor.InitExecutors()
+	middleware.VerifBCResetState(nil)
+	pl, err := xdb.NewLDBDatabase("c03tx", 16, 16)
+	if err != nil {
+		rn.res.Note("chain scenario skipped: " + err.Error())
+		return
+	}
+	_, limit := service.VerifLimits()
+	service.VerifBCSetTxPool(service.VerifNewTxPool(pl, limit))
+	h := &chainHelper{}
+	core.VerifBCGenesisFirst(h, func(prefix string, d xdb.Database) xdb.Database { return d })
+	if err := core.VerifBCInit(h); err != nil {
+		rn.res.Note("chain scenario skipped: " + err.Error())
+		return
+	}
+	stateLDB := middleware.VerifBCStateStore()
+	none := &universe{}
+	head := core.GetBlockChain().TopBlock()
+	coldOpen := func(bh *types.BlockHeader, ntx int, what string) bool {
+		cold := account.NewDatabase(stateLDB) // nothing but the disk store
+		_, prob, _ := readState(cold, bh.StateTree, none)
+		if prob != "" {
+			rn.res.Violate("C03/durable:block-state-unopenable-after-success",
+				what+": the state root cannot be read from the state store alone: "+prob,
+				map[string]interface{}{"chain_seed": seed, "height": bh.Height, "transactions": ntx, "state_root": bh.StateTree.Hex(), "block": bh.Hash.Hex()})
+			return false
+		}
+		return true
+	}
+	coldOpen(head, 0, "genesis block")
+	txn := 0
+	for i := 1; i <= nblocks; i++ {
+		ntx := 0
+		if i%2 == 0 || r.Intn(3) == 0 {
+			ntx = 1 + r.Intn(3)
+		}
+		bh := &types.BlockHeader{
+			CurTime:      head.CurTime.Add(time.Second),
+			Height:       head.Height + 1,
+			ProveValue:   big.NewInt(int64(1 + r.Intn(1000))),
+			Castor:       []byte{0xca, 0x57, byte(r.Intn(3))},
+			TotalQN:      head.TotalQN + uint64(1+r.Intn(3)),
+			PreHash:      head.Hash,
+			PreTime:      head.CurTime,
+			GroupId:      []byte("c03-genesis-group-id-000000000001"),
+			Transactions: make([]common.Hashes, 0),
+			EvictedTxs:   make([]common.Hash, 0),
+			RequestIds:   map[string]uint64{},
+		}
+		for k, v := range head.RequestIds {
+			bh.RequestIds[k] = v
+		}
+		b := &types.Block{Header: bh, Transactions: []*types.Transaction{}}
+		for j := 0; j < ntx; j++ {
+			txn++
+			t := &types.Transaction{ // a type without executor: failed receipt + nonce bump of the source
+				Source: fmt.Sprintf("0x%040x", 0xc03000+txn),
+				Target: "0x00000000000000000000000000000000000c0300",
+				Type:   777,
+				Data:   fmt.Sprintf("c03 chain %d tx %d", seed, txn),
+				Time:   "2020-01-01 00:00:00",
+			}
+			t.Hash = t.GenHash()
+			b.Transactions = append(b.Transactions, t)
+		}
+		// the header's roots, computed WITHOUT committing anything: insertBlock's own saveStates is the
+		// only thing that may put this state on disk
+		root, rroot, err := core.VerifBCExecute(head.StateTree, b, false)
+		if err != nil {
+			rn.res.Note(fmt.Sprintf("chain scenario stopped at block %d: %v", i, err))
+			return
+		}
+		bh.StateTree, bh.ReceiptTree = root, rroot
+		for _, t := range b.Transactions {
+			bh.Transactions = append(bh.Transactions, common.Hashes{t.Hash, t.SubHash})
+		}
+		bh.TxTree = core.VerifBCTxTree(b.Transactions)
+		bh.Hash = bh.GenHash()
+		moved := root != head.StateTree
+		res := core.VerifBCInsert(b)
+		class := fmt.Sprintf("chain:block-with-%s:result-%d", map[bool]string{true: "transactions", false: "no-transactions"}[ntx > 0], int(res))
+		if res != types.AddBlockSucc {
+			rn.res.Count(class, fmt.Sprintf("chain/%d/%d", seed, i), false)
+			rn.res.Note(fmt.Sprintf("chain scenario: block %d (height %d, %d txs) not added: result %d", i, bh.Height, ntx, int(res)))
+			return
+		}
+		if !moved {
+			rn.res.Histogram["chain:block-left-state-root-unchanged"]++
+		}
+		coldOpen(bh, ntx, fmt.Sprintf("insertBlock/saveStates reported success for block %d (height %d, %d transactions)", i, bh.Height, ntx))
+		rn.points++
+		rn.res.Count(class, fmt.Sprintf("chain/%d/%d", seed, i), moved)
+		head = bh
+	}
+}
+
 func opStrings(ops []op, max int) []string {
 	var out []string
 	for i, o := range ops {
@@ -1625,6 +1943,124 @@ func inventory(repo string) (callers []string, files int, err error) {
 	return
 }
 
+// commitPairs: every non-test call site of AccountDB.Commit(bool) must be followed, in the same
+// statement list and with no way out in between other than an error return, by a
+// NodeDatabase.Commit(root, ...) of the root it returned - otherwise "the state commit reported
+// success" does not imply that the root reached the disk store.
+func commitPairs(repo string) (offenders []string, sites int, err error) {
+	fset := token.NewFileSet()
+	src := func(n ast.Node) string {
+		var b bytes.Buffer
+		printer.Fprint(&b, fset, n)
+		return b.String()
+	}
+	// X.Commit(true|false) assigned to an identifier
+	stateCommit := func(st ast.Stmt) string {
+		as, ok := st.(*ast.AssignStmt)
+		if !ok || len(as.Rhs) != 1 || len(as.Lhs) < 1 {
+			return ""
+		}
+		ce, ok := as.Rhs[0].(*ast.CallExpr)
+		if !ok || len(ce.Args) != 1 {
+			return ""
+		}
+		se, ok := ce.Fun.(*ast.SelectorExpr)
+		if !ok || se.Sel.Name != "Commit" {
+			return ""
+		}
+		if id, ok := ce.Args[0].(*ast.Ident); !ok || (id.Name != "true" && id.Name != "false") {
+			return ""
+		}
+		if id, ok := as.Lhs[0].(*ast.Ident); ok && id.Name != "_" {
+			return id.Name
+		}
+		return "?"
+	}
+	diskCommitOf := func(st ast.Stmt, root string) bool {
+		found := false
+		ast.Inspect(st, func(n ast.Node) bool {
+			if ce, ok := n.(*ast.CallExpr); ok && len(ce.Args) == 2 {
+				if se, ok := ce.Fun.(*ast.SelectorExpr); ok && se.Sel.Name == "Commit" {
+					if id, ok := ce.Args[0].(*ast.Ident); ok && id.Name == root {
+						found = true
+					}
+				}
+			}
+			return true
+		})
+		return found
+	}
+	hasReturn := func(st ast.Stmt) bool {
+		found := false
+		ast.Inspect(st, func(n ast.Node) bool {
+			if _, ok := n.(*ast.ReturnStmt); ok {
+				found = true
+			}
+			if _, ok := n.(*ast.FuncLit); ok {
+				return false
+			}
+			return true
+		})
+		return found
+	}
+	err = filepath.Walk(filepath.Join(repo, "src"), func(path string, info os.FileInfo, e error) error {
+		if e != nil {
+			return e
+		}
+		if info.IsDir() || !strings.HasSuffix(path, ".go") || strings.HasSuffix(path, "_test.go") || strings.HasPrefix(info.Name(), "verif_") {
+			return nil
+		}
+		f, perr := parser.ParseFile(fset, path, nil, 0)
+		if perr != nil {
+			return nil
+		}
+		rel, _ := filepath.Rel(repo, path)
+		for _, d := range f.Decls {
+			fd, ok := d.(*ast.FuncDecl)
+			if !ok || fd.Body == nil {
+				continue
+			}
+			ast.Inspect(fd.Body, func(n ast.Node) bool {
+				bl, ok := n.(*ast.BlockStmt)
+				if !ok {
+					return true
+				}
+				for i, st := range bl.List {
+					root := stateCommit(st)
+					if root == "" {
+						continue
+					}
+					sites++
+					site := fmt.Sprintf("%s:%s", rel, fd.Name.Name)
+					j := -1
+					for k := i + 1; k < len(bl.List); k++ {
+						if diskCommitOf(bl.List[k], root) {
+							j = k
+							break
+						}
+					}
+					if j < 0 {
+						offenders = append(offenders, site+": no NodeDatabase.Commit("+root+", ...) after the state commit")
+						continue
+					}
+					for k := i + 1; k < j; k++ {
+						if is, ok := bl.List[k].(*ast.IfStmt); ok && strings.Contains(src(is.Cond), "err") {
+							continue // the error path of the state commit itself
+						}
+						if hasReturn(bl.List[k]) {
+							offenders = append(offenders, site+": can return between the state commit and the disk commit of "+root+": "+strings.SplitN(src(bl.List[k]), "\n", 2)[0])
+						}
+					}
+				}
+				return true
+			})
+		}
+		return nil
+	})
+	sort.Strings(offenders)
+	return
+}
+
 // ---------------------------------------------------------------------------------------------
 
 func main() {
@@ -1673,6 +2109,17 @@ func main() {
 		items[i] = hx.CoqStr(c)
 	}
 	cs.Add("Inventory "+hx.CoqList(items), map[string]interface{}{"inventory": callers})
+	offenders, nsites, err := commitPairs(repo)
+	if err != nil || nsites < 6 {
+		res.Note(fmt.Sprintf("commit-pair scan incomplete: %v (%d sites)", err, nsites))
+		offenders = append(offenders, fmt.Sprintf("scan-found-only-%d-state-commit-sites", nsites))
+	}
+	res.Note(fmt.Sprintf("inventory: %d non-test call sites of AccountDB.Commit(bool); %d not followed by a disk commit of the returned root on every non-error path", nsites, len(offenders)))
+	oitems := make([]string, len(offenders))
+	for i, c := range offenders {
+		oitems[i] = hx.CoqStr(c)
+	}
+	cs.Add("Inventory "+hx.CoqList(oitems), map[string]interface{}{"state_commit_without_disk_commit": offenders})
 
 	h := 0
 	for rn.commits < a.N {
@@ -1708,6 +2155,11 @@ func main() {
 			fi++
 		}
 	}
+	nb := 8
+	if a.Tier == "thorough" {
+		nb = 30
+	}
+	rn.chainScenario(rng.U64(), nb)
 	res.Histogram["histories"] = h
 	res.Histogram["disk-commits"] = rn.commits
 	cs.Close()
